@@ -40,8 +40,8 @@ Proof. destruct (find_e u cur); split; intros; congruence. Qed.
 
 Theorem cq_spec_reflects c : spec_b c = true <-> CqSpec c.
 Proof.
-  unfold spec_b. cbn zeta. rewrite andb_true_iff, !forallb_forall. split.
-  - intros [A B]. constructor.
+  unfold spec_b. cbn zeta. rewrite !andb_true_iff, !forallb_forall. split.
+  - intros [[A B] C]. constructor.
     + intros e He. specialize (A e He). split.
       * intros id E. rewrite E in A. apply type_ok_b_spec. exact A.
       * intros E. rewrite E in A. apply not_waiting_spec. exact A.
@@ -59,7 +59,11 @@ Proof.
       * apply existsb_exists in B. destruct B as (d' & Hd' & B).
         rewrite !andb_true_iff, !N.eqb_eq, cst_eqb_spec in B. destruct B as ((B1 & B2) & B3).
         exists d'. auto.
-  - intros [S1 S2]. split.
+    + intros u calls Hin R x Hx. specialize (C (u, calls) Hin). cbn [fst] in C.
+      apply orb_true_iff in C. destruct C as [C|C].
+      * apply negb_true_iff in C. apply in_range_b_spec in R. congruence.
+      * rewrite forallb_forall in C. apply satisfies_b_false. apply negb_true_iff. apply C. exact Hx.
+  - intros [S1 S2 S3]. split; [split|].
     + intros e He. destruct (S1 e He) as [A B]. destruct (ce_type e) as [id|].
       * apply type_ok_b_spec. apply A. reflexivity.
       * apply not_waiting_spec. apply B. reflexivity.
@@ -75,6 +79,10 @@ Proof.
       { intros x Hx. apply satisfies_b_false. apply negb_true_iff. apply G6. exact Hx. }
       apply existsb_exists. exists d'. split; [exact A|].
       rewrite !andb_true_iff, !N.eqb_eq, cst_eqb_spec. auto.
+    + intros [u calls] Hin. cbn [fst].
+      destruct (in_range_b (ck_reserve c) (ck_types c) (cons_of (ck_cons c) u)) eqn:R; [|reflexivity].
+      cbn [negb orb]. apply forallb_forall. intros x Hx. apply negb_true_iff. apply satisfies_b_false.
+      apply (S3 u calls Hin); [apply in_range_b_spec; exact R|exact Hx].
 Qed.
 
 (* ---------------- the model ---------------- *)
@@ -231,6 +239,20 @@ Proof.
     split; [|destruct (cancel_run_nofault d (err_class ts)) as [-> _]; cbn; auto].
     unfold db_after. apply in_map_iff. exists d. split; [|exact Hd].
     rewrite Fr, A, Fl. reflexivity.
+  - intros u calls Hin R x Hx Sx. unfold co_calls in Hin. unfold calls_after in Hin. apply in_flat_map in Hin.
+    destruct Hin as (d & Hd & Hin). destruct (fresh cur d); [|destruct Hin].
+    destruct (added' d) as [e|u' st k] eqn:A; [destruct Hin|]. destruct Hin as [Hin|[]].
+    injection Hin as -> _. destruct (added_cancel_cases _ _ _ _ A) as (-> & _ & _ & Hc).
+    apply (adequate_iff_satisfies _ _ _ _ R) in Sx.
+    assert (Hxo : In x (ord (cd_uuid d))) by (apply (in_ord (cd_uuid d)); exact Hx).
+    unfold choose in Hc.
+    destruct (choose_need (need_of reserve (cons_of cons (cd_uuid d))) (ord (cd_uuid d))) as [t| |av] eqn:E.
+    + exact (Hc t eq_refl).
+    + apply choose_no_types in E. rewrite E in Hxo. destruct Hxo.
+    + assert (Hs : all_sane (ord (cd_uuid d))).
+      { apply (all_sane_perm ts); [apply Permutation_sym; apply Hord|exact (in_range_sane _ _ _ R)]. }
+      assert (Hne : ord (cd_uuid d) <> []) by (intros Z; rewrite Z in Hxo; destruct Hxo).
+      pose proof (proj1 (choose_error_iff_none _ _ Hs Hne) (ex_intro _ av E) x Hxo) as Hf. congruence.
 Qed.
 
 (* never an arbitrary type: a container whose chooseType call fails while it is Queued or Locked is not handed
